@@ -588,6 +588,73 @@ def gen_ctx_gone(seed, mode="loop"):
     return sc
 
 
+def gen_bind_hostile(seed, mode="loop"):
+    """C04: m_mod_bind(): followers bound to a leader are started / paused / resumed / stopped along with it; their callbacks stop,
+    pause, deregister or re-bind the leader (which edits the leader's list of followers while the library walks it), deregister
+    themselves or bind further modules; chains and diamonds of bindings (acyclic); with and without the harness's observation references"""
+    r = random.Random(seed * 73 + 51)
+    sc = Sc(mode, "bind hostile seed=%d" % seed)
+    driven_skeleton(sc)
+    n = r.randrange(2, 6)
+    L = 1
+    mods = list(range(1, n + 1))
+    for i in mods:
+        sc.mod(i, "b%d" % i, r.choice([0, 0, MOD_NAME_DUP]), r.choice([7, 6, 6, 4, 2]))
+        sc.cb(i, "eval", "*", [], ret=1)
+        sc.cb(i, "evt", "*", [])
+        sc.main.append(("reg", i))
+
+    def nasty(self_):
+        x = r.random()
+        o = r.choice(mods)
+        if x < 0.2:
+            return [("stop", L)]
+        if x < 0.3:
+            return [("pause", L)]
+        if x < 0.4:
+            return [("dereg", L)]
+        if x < 0.5:
+            return [("dereg", -1)]
+        if x < 0.68:
+            return [("bind", o, L)] if o > L else []
+        if x < 0.76:
+            return [(r.choice(["start", "stop", "resume", "pause"]), o)]
+        if x < 0.82:
+            return [("dereg", o)]
+        return []
+    for i in mods:
+        sc.cb(i, "start", "*", nasty(i) if r.random() < 0.6 else [], ret=1 if r.random() < 0.85 else 0)
+        sc.cb(i, "stop", "*", nasty(i) if r.random() < 0.6 else [])
+    for i in mods[1:]:
+        if r.random() < 0.8:
+            sc.main.append(("bind", i, L))
+    # chains, diamonds; no cycles and no self-binding: a follower (transitively) bound to itself whose on_start refuses is
+    # restarted for ever by the program's own semantics
+    for _ in range(r.randrange(0, 3)):
+        a, b = r.choice(mods), r.choice(mods)
+        if a > b:
+            sc.main.append(("bind", a, b))
+    steps = []
+    for k in range(r.randrange(3, 10)):
+        ops = []
+        for _ in range(r.randrange(1, 3)):
+            x = r.random()
+            if x < 0.7:
+                ops.append((r.choice(["start", "pause", "resume", "stop", "start", "stop"]), L if r.random() < 0.7 else r.choice(mods)))
+            elif x < 0.85:
+                a, b = r.choice(mods), r.choice(mods)
+                if a > b:
+                    ops.append(("bind", a, b))
+            else:
+                ops.append(("tell", DRV, r.choice(mods), sc.pay(), 0))
+        steps.append(ops)
+    driven_finish(sc, steps, rng=r)
+    finalize_main(sc)
+    if r.random() < 0.5:
+        without_observation_refs(sc)
+    return sc
+
+
 def gen_tick_in_flush(seed, mode="loop"):
     """C20: m_ctx_set_tick() called by a handler that the final flush of a loop run invokes (loop-stopped notification) while a
     tick is active"""
